@@ -22,7 +22,8 @@ RULE = ("histories of 6-24 ops over a universe of 3-7 identifiers drawn from typ
         "suffixes of one another (1, 10, 21, 1-, >1, 1:2 ...), ~7% with malformed ids (empty key/type), plus a few "
         "small histories (10 in the quick tier, 5% in the thorough tier) using keys that contain the separator '->'; ops = define/delete resource (single and batches mixing missing / existing / repeated ids), define relationship "
         "(single, one-to-many), delete relationship, begin/commit/abort; shapes = random, chains with a closing edge, "
-        "diamonds, chain + ancestor-side define + extension + back edge without deletions in between; one Writer "
+        "diamonds, one-transaction churn (define / delete / re-define of the same relationship, then deletion of an endpoint, "
+        "then commit), chain + ancestor-side define + extension + back edge without deletions in between; one Writer "
         "value serves all operations outside / inside a transaction; a quarter of the histories run on an ontology "
         "whose relationship indexes failed to populate at open (injected iterator fault: parents traversal on the raw "
         "scan fallback); after every op the raw tables (transaction view and committed view) and parents / children / "
@@ -76,6 +77,35 @@ def rel_op(rng, u, f=None, t=None):
     return {"op": "defrel", "a": f, "b": t, "ty": rng.choice(RTYPES)}
 
 
+def tx_churn(rng, u, in_tx):
+    """one transaction that defines, deletes and re-defines the SAME relationship (1-3 rounds, sometimes starting
+    from a committed relationship), then deletes an endpoint (single or batch) in the same transaction and
+    commits (rarely aborts); the committed view is then compared: no dangling edge, traversals"""
+    ops = []
+    if in_tx:
+        ops.append({"op": rng.choice(["commit", "commit", "abort"])})
+    f, t = rng.sample([i for i in u if i != ROOT] or u, 2) if len([i for i in u if i != ROOT]) >= 2 else (u[0], u[-1])
+    ty = rng.choice(["parent", "parent", "parent", "x"])
+    ops += [{"op": "defres", "a": f}, {"op": "defres", "a": t}]
+    if rng.random() < 0.3:
+        ops.append({"op": "defrel", "a": f, "b": t, "ty": ty})       # already committed
+    ops.append({"op": "begin"})
+    seq = rng.choice([["defrel", "delrel", "defrel"], ["defrel", "delrel", "defrel"], ["delrel", "defrel"],
+                      ["defrel", "delrel", "defrel", "delrel", "defrel"], ["defrel", "delrel"]])
+    for k in seq:
+        ops.append({"op": k, "a": f, "b": t, "ty": ty})
+    x = rng.random()
+    victim = t if rng.random() < 0.65 else f
+    if x < 0.55:
+        ops.append({"op": "delres", "a": victim})
+    elif x < 0.8:
+        ops.append({"op": "delmany", "bs": [victim] + ([rng.choice(u)] if rng.random() < 0.4 else [])})
+    ops.append({"op": "commit" if rng.random() < 0.9 else "abort"})
+    if rng.random() < 0.5:
+        ops.append({"op": "defres", "a": victim})                   # a stale edge would reappear here
+    return ops
+
+
 def gen_case(rng):
     u = gen_universe(rng)
     ops = []
@@ -117,6 +147,9 @@ def gen_case(rng):
                 ops.append({"op": "defmany", "a": probe, "ty": "parent", "bs": [start] + ([e] if rng.random() < 0.3 else [])})
             ops.append({"op": "defrel", "a": chain[-1], "b": e, "ty": "parent"})
             ops.append({"op": "defrel", "a": e, "b": rng.choice(chain[:-1]), "ty": rng.choice(["parent", "x"])})
+    if rng.random() < 0.3 and len(u) >= 2:
+        ops += tx_churn(rng, u, in_tx)
+        in_tx = False
     for _ in range(rng.randrange(3, 14)):
         x = rng.random()
         if x < 0.50:
